@@ -407,7 +407,9 @@ def deepen_ok(fc, fn):
     elif it.startswith("enumerate(") and it.endswith(")") and isinstance(loop.target, ast.Tuple) and len(loop.target.elts) == 2:
         lay = it[len("enumerate("):-1]
         i, parent = norm_src(loop.target.elts[0]), norm_src(loop.target.elts[1])
-        snap = local.get(lay, "")
+        # the snapshot may be a local taken before the loop, or the copy expression itself (the iterable of a for
+        # statement is evaluated once, before the first iteration)
+        snap = local.get(lay, lay)
         inner = None
         for w in ("list(", "tuple("):
             if snap.startswith(w) and snap.endswith(")"):
